@@ -108,6 +108,12 @@ NEEDS = {
  "C18-m12": ("the same instants segmented twice in one process, first in another zone (weights memoised by instant)", "weights/*: an earlier call on the same instants in another zone"),
  "C19-m11": ("a calendar period whose daily predictions sum to a negative number (net-metered customer)", None),
  "C19-m12": ("a zone that changes its clocks at local midnight on the first of a month (America/Asuncion 2023-10-01, America/Havana 2020-11-01)", "agg|skipped-midnight / agg|repeated-midnight spans"),
+ "C11-m9": ("smoothing fractions whose float sum is a few ulp below 1 and balance points where rounding lets the shifted points pass each other (equal over the reals)", "rounding replay: candidate fractions within a few ulp of 1 on a balance-point grid (the rounding-error model already refuted the order claim; no float64 instance had been found: exit 3)"),
+ "C11-m10": ("a legacy (2.0) document whose balance point lies on/after the converted model's new placeholder limits (30/90)", "legacy20/* (symbolic 2.0 documents through from_2_0_params and the real kernels)"),
+ "C16-m11": ("reporting rows with only one of observed/predicted finite (rows dropped only when both are missing)", None),
+ "C16-m12": ("CalTRACK-hourly ModelMetrics on usage of both signs (abs of the mean instead of mean of abs)", "caltrack_metrics/variants (ModelMetrics against exact rational arithmetic)"),
+ "C20-m9": ("requested start/end less than 24 h outside the data (gap tests on timedelta.days)", "time shim: timedelta.days / total_seconds / comparisons (the changed code could not be executed in the shim: trace-validation mismatch, exit 3)"),
+ "C20-m10": ("a selection that has rows but no values (emptiness tested before dropna)", None),
  "C16-m10": ("two model objects in one process (one error dict shared through a module constant)", "objects/*"),
 }
 rows = []
